@@ -244,7 +244,7 @@ K({
         "K13: petgraph / indexmap as compiled by Kani",
     ],
     "trusted": ["petgraph::Graph", "indexmap::IndexMap"],
-    "harness_timeout": {"quick": 300, "thorough": 3000},
+    "harness_timeout": {"quick": 900, "thorough": 3000},
 })
 
 K({
@@ -326,7 +326,7 @@ K({
         "K12: " + "tracing replaced by a no-op stand-in (see evidence of the run)",
     ],
     "trusted": ["mock AnswerStream"],
-    "harness_timeout": {"quick": 300, "thorough": 600},
+    "harness_timeout": {"quick": 900, "thorough": 1800},
 })
 
 # --------------------------------------------------------------------------- V1
@@ -517,7 +517,7 @@ V({
     "assumptions": [
         "V18: SearchGraph / Stack / Cache are abstract (views: node sequence, lookup, mixed-cycle predicate, cache map); their custom Index/IndexMut impls have no precondition (in-range is the callers' invariant); flagging a stack entry does not change which cycles are mixed",
         "V18: solve_new_subgoal (the fixed-point loop, which calls back into solve_goal through the solver) is havoc; the new-goal branch is only constrained by 'minimums never go up'",
-        "V18: Minimums::update_from is min on the derived order of DepthFirstNumber (std::cmp::min); V::clone returns an equal value",
+        "V18: Minimums::update_from is min on the derived order of DepthFirstNumber (std::cmp::min); V::clone returns an equal value; cloning the caller's callback gives a callback that behaves the same (assumed axioms clone_keeps_behaviour / clone_keeps_callable); the callback may be called",
         "V18: a Kani unit (K14) that would have run the whole engine on tiny propositional programs against the fixed-point semantics was written and dropped: CBMC does not finish even on one concrete 3-goal scenario (recursion through solve_goal/solve_new_subgoal/solve_iteration is unrolled 15^depth times)",
     ],
     "trusted": ["chalk-recursive SearchGraph / Stack / Cache (abstract)"],
@@ -615,7 +615,7 @@ V({
     "assumptions": [
         "V24: solve_new_subgoal is a callee under the contract proved by V23 (stored answer = last iteration's product, returned minimums = that iteration's, nothing made permanent after it, the goal's node still in place with its goal field)",
         "V24: SearchGraph / Stack / Cache are abstract with ghost views (node sequence, goal lookup, iteration history, count and content of move_to_cache batches); insert appends a node whose links point at itself, rollback_to / move_to_cache truncate to dfn, move_to_cache hands exactly the removed nodes to the cache; custom Index/IndexMut have update semantics and no precondition",
-        "V24: V::clone returns an equal value; the graph holds fewer than usize::MAX nodes; Stack::push as proved by K11",
+        "V24: V::clone returns an equal value; cloning the caller's callback gives a callback that behaves the same (assumed axioms); the graph holds fewer than usize::MAX nodes; Stack::push as proved by K11",
     ],
     "trusted": ["chalk-recursive SearchGraph / Stack / Cache (abstract)"],
 })
